@@ -22,6 +22,7 @@ import (
 	"testing"
 
 	"github.com/NethermindEth/juno/blockchain"
+	"github.com/NethermindEth/juno/blockchain/networks"
 	"github.com/NethermindEth/juno/core"
 	"github.com/NethermindEth/juno/core/felt"
 	"github.com/NethermindEth/juno/core/pending"
@@ -30,6 +31,7 @@ import (
 	"pgregory.net/rapid"
 
 	"verif/harness/internal/gen"
+	"verif/harness/internal/node"
 	"verif/harness/internal/ref"
 	"verif/harness/internal/stats"
 )
@@ -613,6 +615,9 @@ func (m *machine) actFull(rt *rapid.T) {
 		return
 	}
 	kinds := []string{"append", "append", "append", "new-round-tip", "richer-tip", "same-round-tip", "blank-tip", "blank-append"}
+	if len(m.chain) < 3 {
+		kinds = append(kinds, "append", "append", "append")
+	}
 	if len(m.chain) >= 2 {
 		kinds = append(kinds, "new-round-below", "new-round-below", "same-round-below", "blank-below")
 	}
@@ -866,6 +871,7 @@ func (m *machine) actions() map[string]func(*rapid.T) {
 	return map[string]func(*rapid.T){
 		"full":    m.actFull,
 		"full2":   m.actFull,
+		"full3":   m.actFull,
 		"delta":   m.actDelta,
 		"delta2":  m.actDelta,
 		"nochg":   m.actNoChange,
@@ -876,6 +882,7 @@ func (m *machine) actions() map[string]func(*rapid.T) {
 		"view":    m.actTakeView,
 		"view2":   m.actTakeView,
 		"query":   m.actQueryView,
+		"query2":  m.actQueryView,
 	}
 }
 
@@ -1030,4 +1037,92 @@ func TestRaceConcurrentReaders(t *testing.T) {
 				c.Label("readers-walked-nothing")
 			}
 		})
+}
+
+// ---------------------------------------------------------------------------------------------
+// known finding: deterministic witness
+
+// handBlock seals a canonical block with the given diff on top of parent (nil: genesis).
+func handBlock(u *gen.Universe, parent *gen.Block, ver string, d *core.StateDiff, classes map[felt.Felt]core.ClassDefinition, casmV2 func(felt.Felt) felt.Felt) *gen.Block {
+	pre, num, ph := ref.NewState(), uint64(0), felt.Zero
+	if parent != nil {
+		pre, num, ph = parent.Post, parent.Num()+1, *parent.B.Hash
+	}
+	post := pre.Clone()
+	if err := post.Apply(num, ver, d, classes, casmV2); err != nil {
+		stats.HarnessError("witness block %d: %v", num, err)
+	}
+	one := gen.F(1)
+	h := &core.Header{ParentHash: &ph, Number: num, SequencerAddress: &one, Timestamp: 1_700_000_000 + num, ProtocolVersion: ver,
+		EventsBloom: core.EventsBloom(nil), L1GasPriceETH: &one, L1GasPriceSTRK: &one,
+		L1DataGasPrice: &core.GasPrice{PriceInWei: &one, PriceInFri: &one}, L2GasPrice: &core.GasPrice{PriceInWei: &one, PriceInFri: &one}}
+	b := &gen.Block{B: &core.Block{Header: h, Transactions: []core.Transaction{}, Receipts: []*core.TransactionReceipt{}},
+		SU: &core.StateUpdate{StateDiff: d}, Classes: classes, Pre: pre, Post: post, Tags: map[string]bool{}}
+	gen.Seal(b, u.Net)
+	return b
+}
+
+// TestKnownCasmHashIgnoresMigrationInView: block 0 (0.13.4) declares Sierra class X with its Poseidon
+// CASM hash V1. Node A stores block 1 (0.14.1) whose diff migrates X to the blake2s hash V2:
+// StateAtBlockNumber(1).CompiledClassHash(X) = V2. Node B keeps block 1 pre-confirmed (one
+// transaction whose state diff carries the same migration): the state read through the view at
+// block 1 answers CompiledClassHash(X) = V1, i.e. not "canonical state + the view's diffs".
+func TestKnownCasmHashIgnoresMigrationInView(t *testing.T) {
+	if !stats.Known(kfCasmMigration) {
+		t.Skipf("%s is not listed as known", kfCasmMigration)
+	}
+	for _, newState := range []bool{false, true} {
+		u := &gen.Universe{Net: &networks.Sepolia}
+		x := gen.MakeSierra(77)
+		casmV2 := func(felt.Felt) felt.Felt { return x.CasmV2 }
+		d0 := core.EmptyStateDiff()
+		d0.DeclaredV1Classes[x.Hash] = &x.CasmV1
+		defs := map[felt.Felt]core.ClassDefinition{x.Hash: x.Def}
+		b0 := handBlock(u, nil, "0.13.4", &d0, defs, casmV2)
+		d1 := core.EmptyStateDiff()
+		d1.MigratedClasses[felt.SierraClassHash(x.Hash)] = felt.CasmClassHash(x.CasmV2)
+		b1 := handBlock(u, b0, "0.14.1", &d1, nil, casmV2)
+
+		a, b := node.New(newState, nil, u.Net), node.New(newState, nil, u.Net)
+		for _, blk := range []*gen.Block{b0, b1} {
+			if err := a.Store(blk); err != nil {
+				stats.HarnessError("witness: node A rejected block %d: %v", blk.Num(), err)
+			}
+		}
+		if err := b.Store(b0); err != nil {
+			stats.HarnessError("witness: node B rejected block 0: %v", err)
+		}
+		sh := felt.SierraClassHash(x.Hash)
+		ra, closeA, err := a.BC.StateAtBlockNumber(1)
+		if err != nil {
+			stats.HarnessError("witness: %v", err)
+		}
+		canon, err := ra.CompiledClassHash(&sh)
+		_ = closeA()
+		if err != nil || !(*felt.Felt)(&canon).Equal(&x.CasmV2) {
+			t.Fatalf("ORACLE[witness] %s: canonical CompiledClassHash after the migration = %s, %v; want V2 %s", a.Backend(), (*felt.Felt)(&canon).ShortString(), err, x.CasmV2.ShortString())
+		}
+
+		sender, nonce := gen.F(0x1234), gen.F(1)
+		tx := &core.InvokeTransaction{Version: new(core.TransactionVersion).SetUint64(1), SenderAddress: &sender, Nonce: &nonce,
+			MaxFee: gen.FP(1), CallData: []felt.Felt{}, TransactionSignature: []felt.Felt{}, TransactionHash: gen.FP(0xabc1)}
+		rc := &core.TransactionReceipt{Fee: gen.FP(1), TransactionHash: tx.TransactionHash, ExecutionResources: &core.ExecutionResources{}}
+		ct := &content{num: 1, id: "0xa001", ver: "0.14.1", h: b1.B.Header, txs: []core.Transaction{tx}, rcs: []*core.TransactionReceipt{rc}, diffs: []*core.StateDiff{&d1}}
+		st := preconfirmed.NewChainStorage()
+		if _, err := st.ApplyUpdate(wireBlock(ct, 1), 1, 0, 1, nil); err != nil {
+			stats.HarnessError("witness: ApplyUpdate: %v", err)
+		}
+		v := st.SnapshotForBlock(1)
+		rb, closeB, err := v.PreConfirmedStateAt(1, b.BC)
+		if err != nil {
+			stats.HarnessError("witness: PreConfirmedStateAt: %v", err)
+		}
+		got, err1 := rb.CompiledClassHash(&sh)
+		got2, err2 := rb.CompiledClassHashV2(&sh)
+		_ = closeB()
+		reproduced := err1 == nil && (*felt.Felt)(&got).Equal(&x.CasmV1) && !x.CasmV1.Equal(&x.CasmV2)
+		t.Logf("%s backend %s: canonical state at block 1: CompiledClassHash(X)=%s; view at pre-confirmed block 1: CompiledClassHash(X)=%s (%v), CompiledClassHashV2(X)=%s (%v); V1=%s V2=%s (reproduced=%v)",
+			kfCasmMigration, b.Backend(), (*felt.Felt)(&canon).ShortString(), (*felt.Felt)(&got).ShortString(), err1, (*felt.Felt)(&got2).ShortString(), err2, x.CasmV1.ShortString(), x.CasmV2.ShortString(), reproduced)
+		stats.KnownFindingWitness(t, kfCasmMigration, reproduced)
+	}
 }
